@@ -49,8 +49,13 @@ type qCfg struct {
 	ScaleMin    bool `json:"scale_min"`
 	Readers     int  `json:"readers"`
 	Migrator    bool `json:"migrator"`
-	Serial      bool `json:"serial"` // every burst has one op (strict sequential history)
+	Serial      bool `json:"serial"`    // every burst has one op (strict sequential history)
 	Guarantee   bool `json:"guarantee"` // feature gate ElasticQuotaGuaranteeUsage (no quota lends; guaranteed = max(allocated, min))
+	// QuotaFirst: the pod informer and the scheduler proceed only while the quota informer has nothing pending, so the
+	// plugin knows every quota before it sees a pod of it. Such runs stay outside the history classes of several recorded
+	// findings (parked pods, pod add overlapping its own quota's add, admission while the quota is unknown) and keep their
+	// full sensitivity for everything else.
+	QuotaFirst bool `json:"quota_first,omitempty"`
 	// C19 only (quota_c19_verif_test.go): weights of the driver's choice between delivering a pending informer
 	// event, the next API operation / scheduling attempt, and a pending bind
 	WDel  int `json:"w_deliver,omitempty"`
@@ -431,7 +436,7 @@ func (p *mPod) obj() *corev1.Pod {
 	pod := &corev1.Pod{
 		ObjectMeta: metav1.ObjectMeta{Name: p.Name, Namespace: "default", UID: types.UID(p.uid), ResourceVersion: fmt.Sprint(p.rv),
 			Labels: map[string]string{extension.LabelQuotaName: p.Quota}},
-		Spec: corev1.PodSpec{NodeName: p.Node, Containers: []corev1.Container{{Name: "c", Resources: corev1.ResourceRequirements{Requests: toRL(p.Req)}}}},
+		Spec:   corev1.PodSpec{NodeName: p.Node, Containers: []corev1.Container{{Name: "c", Resources: corev1.ResourceRequirements{Requests: toRL(p.Req)}}}},
 		Status: corev1.PodStatus{Phase: corev1.PodPending},
 	}
 	if p.Node != "" {
@@ -467,7 +472,9 @@ func (quotaEngine) Generate(p *sim.Plan, g *sim.Rng) {
 		cfg.Runtime = true
 	}
 	cfg.Guarantee = g.Bool(0.2)
+	cfg.QuotaFirst = g.Bool(0.4)
 	if p.Prop == "C19" {
+		cfg.QuotaFirst = false
 		switch g.Intn(4) {
 		case 0: // prompt delivery
 			cfg.WDel, cfg.WOp, cfg.WBind = 12, 1, 4
@@ -819,18 +826,18 @@ type qSim struct {
 	queues map[string][]qEvent // per informer stream
 	busy   map[string]bool
 	// what the pod informer delivered last (the scheduler's view of a pod)
-	delivered map[string]*corev1.Pod
-	processed map[string]*corev1.Pod
-	schedQ    []qOp
-	bindQ     []func()
-	quotaAdding string
-	knownQuotas map[string]bool // quotas whose add has been handled completely (they define the manager's resource dimensions)
-	inFlight    map[string]bool
+	delivered              map[string]*corev1.Pod
+	processed              map[string]*corev1.Pod
+	schedQ                 []qOp
+	bindQ                  []func()
+	quotaAdding            string
+	knownQuotas            map[string]bool // quotas whose add has been handled completely (they define the manager's resource dimensions)
+	inFlight               map[string]bool
 	foreign, everScheduled map[string]bool
-	apiDone   bool
-	attempts  int
-	c19Echo   map[any]bool // C19 mode: new-object pointers of the pod updates that echo a bind of this scheduler
-	c19StaleEcho map[any]bool
+	apiDone                bool
+	attempts               int
+	c19Echo                map[any]bool // C19 mode: new-object pointers of the pod updates that echo a bind of this scheduler
+	c19StaleEcho           map[any]bool
 }
 
 func newPlugin(cfg qCfg) *Plugin {
@@ -1009,6 +1016,8 @@ func (s *qSim) idle() bool {
 	return len(s.schedQ) == 0 && len(s.bindQ) == 0
 }
 
+func (s *qSim) quotaInformerIdle() bool { return len(s.queues["quota"]) == 0 && !s.busy["quota"] }
+
 // cycle runs one scheduling attempt for the pod as the scheduler sees it.
 func (s *qSim) cycle(op qOp, strict bool) {
 	pod := s.delivered[op.P]
@@ -1175,7 +1184,12 @@ func (quotaEngine) Execute(r *sim.Run) {
 			typ := typ
 			r.Spawn("informer-"+typ, func() {
 				for {
-					r.WaitUntil("inf-wait:"+typ, func() bool { return len(s.queues[typ]) > 0 || (s.apiDone && len(s.schedQ) == 0 && len(s.bindQ) == 0 && !s.busy["sched"] && !s.busy["binder"]) })
+					r.WaitUntil("inf-wait:"+typ, func() bool {
+						if typ == "pod" && s.cfg.QuotaFirst && !s.quotaInformerIdle() {
+							return false
+						}
+						return len(s.queues[typ]) > 0 || (s.apiDone && len(s.schedQ) == 0 && len(s.bindQ) == 0 && !s.busy["sched"] && !s.busy["binder"])
+					})
 					if len(s.queues[typ]) == 0 {
 						return
 					}
@@ -1189,7 +1203,12 @@ func (quotaEngine) Execute(r *sim.Run) {
 		}
 		r.Spawn("sched", func() {
 			for {
-				r.WaitUntil("sched-wait", func() bool { return len(s.schedQ) > 0 || s.apiDone })
+				r.WaitUntil("sched-wait", func() bool {
+					if s.cfg.QuotaFirst && !s.quotaInformerIdle() {
+						return false
+					}
+					return len(s.schedQ) > 0 || s.apiDone
+				})
 				if len(s.schedQ) == 0 {
 					return
 				}
